@@ -2461,7 +2461,8 @@ def _sha512_text(t):
                  (' 0#32', ' 0#64'), ('BitVec 32', 'BitVec 64'), ('usual_bswap32', 'usual_bswap64'),
                  ('C05TSha', 'C05TSha512'), ('sha256', 'sha512'), ('SHA-256', 'SHA-512'), ('SHA256', 'SHA512'),
                  ('List.range 64', 'List.range 80'), ('roundG 63', 'roundG 79'), ('977 `let`s', '1217 `let`s'),
-                 ('the 64 unrolled rounds', 'the 80 unrolled rounds')):
+                 ('the 64 unrolled rounds', 'the 80 unrolled rounds'),
+                 ('theorem core_eq_rounds', 'set_option maxHeartbeats 2000000 in\ntheorem core_eq_rounds')):
         t = t.replace(a, b)
     return t
 
